@@ -2,7 +2,7 @@
    djs_reject (grow_model) and the smooth()-based loop of skymask both compute it. *)
 From Coq Require Import ZArith QArith List Bool Lia.
 Import ListNotations.
-From PV Require Import C17.Model.
+From PV Require Import Generated.Reject C17.Model.
 
 Lemma nth_false_iff : forall (m : list bool) j, nth j m false = true <-> nth_error m j = Some true.
 Proof.
@@ -96,12 +96,20 @@ Proof.
       * right. split; [assumption|]. exists q. tauto.
 Qed.
 
+(* canonical form of the growth loop (what the generated index expressions must amount to) *)
+Definition grow_pass_c (n k : nat) (rej : list nat) (m : list bool) : list bool :=
+  let m1 := fold_left (fun acc p => set_false (p - k) acc) rej m in
+  fold_left (fun acc p => set_false (Nat.min (p + k) (n - 1)) acc) rej m1.
+Definition grow_model_c (g : nat) (m : list bool) : list bool :=
+  let rej := positions_from 0 m false in
+  fold_left (fun acc k => grow_pass_c (length m) k rej acc) (seq 1 g) m.
+
 Lemma grow_pass_spec : forall n k R m j,
-  length (grow_pass n k R m) = length m /\
-  (rej (grow_pass n k R m) j <->
+  length (grow_pass_c n k R m) = length m /\
+  (rej (grow_pass_c n k R m) j <->
    rej m j \/ ((j < length m)%nat /\ exists p, In p R /\ ((p - k)%nat = j \/ Nat.min (p + k) (n - 1) = j))).
 Proof.
-  intros. unfold grow_pass.
+  intros. unfold grow_pass_c.
   set (m1 := fold_left (fun acc p => set_false (p - k) acc) R m).
   destruct (fold_set_false (fun p => (p - k)%nat) R m j) as [L1 R1]. fold m1 in L1, R1.
   destruct (fold_set_false (fun p => Nat.min (p + k) (n - 1)) R m1 j) as [L2 R2].
@@ -115,7 +123,7 @@ Proof.
 Qed.
 
 Lemma grow_fold_spec : forall n R g a m j,
-  let out := fold_left (fun acc k => grow_pass n k R acc) (seq a g) m in
+  let out := fold_left (fun acc k => grow_pass_c n k R acc) (seq a g) m in
   length out = length m /\
   (rej out j <->
    rej m j \/ ((j < length m)%nat /\ exists k p, (a <= k < a + g)%nat /\ In p R /\
@@ -123,7 +131,7 @@ Lemma grow_fold_spec : forall n R g a m j,
 Proof.
   intros n R g. induction g as [|g IH]; intros a m j; cbn.
   - split; [reflexivity|]. split; [tauto | intros [H|(_ & k & p & H & _)]; [assumption | lia]].
-  - destruct (IH (S a) (grow_pass n a R m) j) as [L1 R1].
+  - destruct (IH (S a) (grow_pass_c n a R m) j) as [L1 R1].
     destruct (grow_pass_spec n a R m j) as [L2 R2].
     split; [congruence|]. rewrite R1, R2, L2. split.
     + intros [[H|(H1 & p & H2 & H3)]|(H1 & k & p & H2 & H3)]; [left; assumption| |].
@@ -155,12 +163,12 @@ Proof.
 Qed.
 
 (* the index-assignment loop is exactly dilation by g of the set of rejected points *)
-Lemma grow_model_spec : forall g m j,
-  length (grow_model g m) = length m /\
-  (rej (grow_model g m) j <->
+Lemma grow_model_c_spec : forall g m j,
+  length (grow_model_c g m) = length m /\
+  (rej (grow_model_c g m) j <->
    (j < length m)%nat /\ exists p, rej m p /\ (j <= p + g /\ p <= j + g)%nat).
 Proof.
-  intros. unfold grow_model.
+  intros. unfold grow_model_c.
   destruct (grow_fold_spec (length m) (positions_from 0 m false) g 1 m j) as [L R].
   cbv zeta in *. split; [exact L|]. rewrite R. split.
   - intros [H|(H1 & k & p & H2 & H3 & H4)].
@@ -176,3 +184,52 @@ Proof.
     + exists (p - j)%nat, p. split; [lia|]. split; [assumption|]. left. lia.
     + exists (j - p)%nat, p. split; [lia|]. split; [assumption|]. right. lia.
 Qed.
+
+(* ---------------------------------------------------------------- the GENERATED loop is the canonical one *)
+
+Lemma fold_left_ext_in : forall {A B} (f g : A -> B -> A) (l : list B) a,
+  (forall a b, f a b = g a b) -> fold_left f l a = fold_left g l a.
+Proof. intros A B f g l. induction l as [|b l IH]; intros a H; cbn; [reflexivity|]. rewrite H. apply IH, H. Qed.
+
+Lemma fold_left_map : forall {A B C} (f : A -> C -> A) (h : B -> C) (l : list B) a,
+  fold_left f (map h l) a = fold_left (fun a x => f a (h x)) l a.
+Proof. intros A B C f h l. induction l as [|b l IH]; intros a; cbn; [reflexivity | apply IH]. Qed.
+
+Lemma grow_left_index : forall p k n : nat,
+  np_index (Z.of_nat n) (rej_grow_left (Z.of_nat p) (Z.of_nat k) (Z.of_nat n)) = (p - k)%nat.
+Proof. intros. unfold np_index, rej_grow_left. destruct (_ <? 0)%Z eqn:E; lia. Qed.
+
+Lemma grow_right_index : forall p k n : nat,
+  np_index (Z.of_nat n) (rej_grow_right (Z.of_nat p) (Z.of_nat k) (Z.of_nat n)) = Nat.min (p + k) (n - 1).
+Proof. intros. unfold np_index, rej_grow_right. destruct (_ <? 0)%Z eqn:E; lia. Qed.
+
+Lemma grow_pass_eq : forall n k R m, grow_pass n (Z.of_nat k) R m = grow_pass_c n k R m.
+Proof.
+  intros n k R m. unfold grow_pass, grow_pass_c. cbv zeta.
+  set (F1 := fun acc p => set_false (np_index (Z.of_nat n) (rej_grow_left (Z.of_nat p) (Z.of_nat k) (Z.of_nat n))) acc).
+  set (F2 := fun acc p => set_false (np_index (Z.of_nat n) (rej_grow_right (Z.of_nat p) (Z.of_nat k) (Z.of_nat n))) acc).
+  assert (E1 : forall acc p, F1 acc p = set_false (p - k) acc)
+    by (intros; unfold F1; rewrite grow_left_index; reflexivity).
+  assert (E2 : forall acc p, F2 acc p = set_false (Nat.min (p + k) (n - 1)) acc)
+    by (intros; unfold F2; rewrite grow_right_index; reflexivity).
+  rewrite (fold_left_ext_in F1 _ R m E1). apply fold_left_ext_in, E2.
+Qed.
+
+Lemma zrange_1 : forall g, zrange 1 g = map Z.of_nat (seq 1 g).
+Proof. intros. unfold zrange. rewrite <- seq_shift, map_map. apply map_ext. intros. lia. Qed.
+
+Lemma grow_model_eq : forall g m, grow_model g m = grow_model_c g m.
+Proof.
+  intros. unfold grow_model, grow_model_c. cbv zeta. unfold rej_grow_guard, rej_grow_klo, rej_grow_khi.
+  destruct (0 <? Z.of_nat g)%Z eqn:E.
+  - replace (Z.to_nat (Z.of_nat g + 1 - 1)) with g by lia. rewrite zrange_1, fold_left_map.
+    apply fold_left_ext_in. intros. apply grow_pass_eq.
+  - assert (g = O) by lia. subst. reflexivity.
+Qed.
+
+(* the index-assignment loop is exactly dilation by g of the set of rejected points *)
+Lemma grow_model_spec : forall g m j,
+  length (grow_model g m) = length m /\
+  (rej (grow_model g m) j <->
+   (j < length m)%nat /\ exists p, rej m p /\ (j <= p + g /\ p <= j + g)%nat).
+Proof. intros. rewrite grow_model_eq. apply grow_model_c_spec. Qed.
